@@ -299,13 +299,27 @@ def aesKeyExpandConfigs : List (String × List Stmt) := [
     .label "err0",
     .ret])]
 
+/-- `crypto_aes_key_expand`: variables declared by value (a callee cannot write them) -/
+def aesKeyExpandScalars : List String := ["len"]
+
 /-- `crypto_aes_key_expand_aesni` in crypto/crypto_aes_aesni.c, configuration [CPUSUPPORT_X86_AESNI] -/
 def aesKeyExpandAesni : List Stmt := [
   .call "kexp" "malloc" ["sizeof(struct crypto_aes_key_aesni)"] (some "err0"),
   .call "" "ALIGN_PTR_INIT" ["kexp->rkeys", "sizeof(__m128i)"] none,
+  .cond "!(len == 16)" "<else1>",
+  .call "kexp->nr" "" ["10"] none,
   .call "" "crypto_aes_key_expand_128_aesni" ["key_unexpanded", "kexp->rkeys"] none,
+  .goto "<endif4>",
+  .label "<else1>",
+  .cond "!(len == 32)" "<else2>",
+  .call "kexp->nr" "" ["14"] none,
   .call "" "crypto_aes_key_expand_256_aesni" ["key_unexpanded", "kexp->rkeys"] none,
-  .cond "!(len == 32)" "err1",
+  .goto "<endif3>",
+  .label "<else2>",
+  .call "" "warn0" ["\"\"", "len"] none,
+  .goto "err1",
+  .label "<endif3>",
+  .label "<endif4>",
   .ret,
   .label "err1",
   .call "" "free" ["kexp"] none,
@@ -316,13 +330,27 @@ def aesKeyExpandAesni : List Stmt := [
 def aesKeyExpandAesniConfigs : List (String × List Stmt) := [
   ("CPUSUPPORT_X86_AESNI", aesKeyExpandAesni)]
 
+/-- `crypto_aes_key_expand_aesni`: variables declared by value (a callee cannot write them) -/
+def aesKeyExpandAesniScalars : List String := ["len"]
+
 /-- `crypto_aes_key_expand_arm` in crypto/crypto_aes_arm.c, configuration [CPUSUPPORT_ARM_AES] -/
 def aesKeyExpandArm : List Stmt := [
   .call "kexp" "malloc" ["sizeof(struct crypto_aes_key_arm)"] (some "err0"),
   .call "" "ALIGN_PTR_INIT" ["kexp->rkeys", "sizeof(uint8x16_t)"] none,
+  .cond "!(len == 16)" "<else1>",
+  .call "kexp->nr" "" ["10"] none,
   .call "" "crypto_aes_key_expand_128_arm" ["key_unexpanded", "kexp->rkeys"] none,
+  .goto "<endif4>",
+  .label "<else1>",
+  .cond "!(len == 32)" "<else2>",
+  .call "kexp->nr" "" ["14"] none,
   .call "" "crypto_aes_key_expand_256_arm" ["key_unexpanded", "kexp->rkeys"] none,
-  .cond "!(len == 32)" "err1",
+  .goto "<endif3>",
+  .label "<else2>",
+  .call "" "warn0" ["\"\"", "len"] none,
+  .goto "err1",
+  .label "<endif3>",
+  .label "<endif4>",
   .ret,
   .label "err1",
   .call "" "free" ["kexp"] none,
@@ -332,6 +360,9 @@ def aesKeyExpandArm : List Stmt := [
 /-- `crypto_aes_key_expand_arm`: one statement list per preprocessor configuration (named by the macros defined in it) -/
 def aesKeyExpandArmConfigs : List (String × List Stmt) := [
   ("CPUSUPPORT_ARM_AES", aesKeyExpandArm)]
+
+/-- `crypto_aes_key_expand_arm`: variables declared by value (a callee cannot write them) -/
+def aesKeyExpandArmScalars : List String := ["len"]
 
 /-- `crypto_aesctr_free` in crypto/crypto_aesctr.c, configuration [] -/
 def aesctrFree : List Stmt := [
@@ -353,6 +384,25 @@ def aesctrAlloc : List Stmt := [
 /-- `crypto_aesctr_alloc`: one statement list per preprocessor configuration (named by the macros defined in it) -/
 def aesctrAllocConfigs : List (String × List Stmt) := [
   ("", aesctrAlloc)]
+
+/-- `crypto_aesctr_alloc`: variables declared by value (a callee cannot write them) -/
+def aesctrAllocScalars : List String := []
+
+/-- `crypto_aesctr_init` in crypto/crypto_aesctr.c, configuration [] -/
+def aesctrInit : List Stmt := [
+  .call "" "assert" ["key != NULL"] none,
+  .call "stream" "crypto_aesctr_alloc" [] (some "err0"),
+  .call "" "crypto_aesctr_init2" ["stream", "key", "nonce"] none,
+  .ret,
+  .label "err0",
+  .ret]
+
+/-- `crypto_aesctr_init`: one statement list per preprocessor configuration (named by the macros defined in it) -/
+def aesctrInitConfigs : List (String × List Stmt) := [
+  ("", aesctrInit)]
+
+/-- `crypto_aesctr_init`: variables declared by value (a callee cannot write them) -/
+def aesctrInitScalars : List String := ["nonce"]
 
 /-- `crypto_aesctr_buf` in crypto/crypto_aesctr.c, configuration [] -/
 def aesctrBuf : List Stmt := [
